@@ -11,13 +11,7 @@ VIEW View
 ACTION_CONSTRAINT Emit
 INVARIANT EmitState
 INVARIANT TypeOK
-INVARIANT VolumeAdditive
-INVARIANT MassIsDensityTimesVolume
-INVARIANT MassAdditive
-INVARIANT AtomsAgree
-INVARIANT MassesAgreeWithMass
-INVARIANT MassFracsSumToOne
-INVARIANT ConversionsInverse
+INVARIANT Accounting
 PROPERTY ReadBack
 PROPERTY Locality
 POSTCONDITION CountReport
